@@ -18,6 +18,7 @@ import (
 	"strconv"
 	"strings"
 	"testing"
+	"time"
 
 	"pgregory.net/rapid"
 
@@ -30,7 +31,8 @@ import (
 )
 
 // Op kinds: msg (Tpl or data with Fields/Recs), burst (N arrivals), get (Count, Format as raw
-// query strings; "-" = absent), reset, badmethod (Path).
+// query strings; "-" = absent), reset, badmethod (Path), get_during_arrival (a text-format query
+// for everything during which a message arrives: the answer must be the window before or after it).
 type Op struct {
 	Kind   string        `json:"kind"`
 	Tpl    bool          `json:"tpl,omitempty"`
@@ -50,7 +52,24 @@ type Stats struct {
 	CapCrossings int
 	OctetArray   bool
 	Queries      int
+	Concurrent   bool
 }
+
+// hookWriter runs hook once, when the handler first touches the response (headers or body).
+type hookWriter struct {
+	*httptest.ResponseRecorder
+	hook  func()
+	fired bool
+}
+
+func (h *hookWriter) fire() {
+	if !h.fired {
+		h.fired = true
+		h.hook()
+	}
+}
+func (h *hookWriter) Header() http.Header         { h.fire(); return h.ResponseRecorder.Header() }
+func (h *hookWriter) Write(b []byte) (int, error) { h.fire(); return h.ResponseRecorder.Write(b) }
 
 var (
 	rec  *ev.Recorder
@@ -250,6 +269,46 @@ func runCase(c Case, st *Stats) *ev.Failure {
 			if n != len(model) {
 				return ev.Failf("op %d: a refused request changed the store (%d entries, want %d)", i, n, len(model))
 			}
+		case "get_during_arrival":
+			st.Queries++
+			st.Concurrent = true
+			before := append([]string(nil), texts...)
+			arrived := make(chan *ev.Failure, 1)
+			hw := &hookWriter{ResponseRecorder: httptest.NewRecorder()}
+			hw.hook = func() {
+				go func() { arrived <- arrive(i, Op{Kind: "msg", Fields: []ref.Field{glue.UserField(ref.TU32)}, Recs: [][]ref.Value{{{U: 77}}}}) }()
+				// give the arrival the chance to run if nothing holds it back (it must wait for the query)
+				select {
+				case f := <-arrived:
+					arrived <- f
+				case <-time.After(20 * time.Millisecond):
+				}
+			}
+			flowRecordHandler(hw, httptest.NewRequest("GET", "/records?format=text", nil))
+			if !hw.fired {
+				hw.hook()
+			}
+			select {
+			case f := <-arrived:
+				if f != nil {
+					return f
+				}
+			case <-time.After(10 * time.Second):
+				return ev.Failf("op %d: a message arriving during a query was never stored (deadlock?)", i)
+			}
+			body := hw.Body.String()
+			sep := strings.Repeat("=", 80)
+			join := func(es []string) string {
+				var b strings.Builder
+				for _, e := range es {
+					b.WriteString(e)
+					b.WriteString(sep)
+				}
+				return b.String()
+			}
+			if body != join(before) && body != join(texts) {
+				return ev.Failf("op %d: a query during which a message arrived returned neither the window before nor the window after the arrival (%d bytes; before %d entries, after %d)", i, len(body), len(before), len(texts))
+			}
 		case "get":
 			st.Queries++
 			q := []string{}
@@ -369,7 +428,11 @@ func genCase(t *rapid.T) Case {
 				Count:  rapid.SampledFrom([]string{"-", "-", "0", "1", "2", "3", "17", "4095", "4096", "4097", "100000", "-1", "abc", "1.5", ""}).Draw(t, "count"),
 				Format: rapid.SampledFrom([]string{"-", "-", "json", "text", "text", "xml", "JSON", ""}).Draw(t, "format")})
 		case k == 17:
-			c.Ops = append(c.Ops, Op{Kind: "reset"})
+			if rapid.Bool().Draw(t, "conc") {
+				c.Ops = append(c.Ops, Op{Kind: "get_during_arrival"})
+			} else {
+				c.Ops = append(c.Ops, Op{Kind: "reset"})
+			}
 		default:
 			c.Ops = append(c.Ops, Op{Kind: "badmethod", Path: rapid.SampledFrom([]string{"/records", "/reset"}).Draw(t, "path")})
 		}
@@ -390,6 +453,9 @@ func runRecorded(phase string, c Case) *ev.Failure {
 	if st.OctetArray {
 		cl = append(cl, "octet_array_field")
 	}
+	if st.Concurrent {
+		cl = append(cl, "query_during_arrival")
+	}
 	rec.Case(ev.Hash(c), st.CapCrossings > 0 || st.Queries > 0, cl...)
 	if len(c.Ops) <= 4 {
 		rec.Sample(phase, c)
@@ -404,7 +470,7 @@ func TestC20(t *testing.T) {
 		pre.Ops = append(pre.Ops, Op{Kind: "burst", N: 4095}, Op{Kind: "get", Count: "-", Format: "-"}, Op{Kind: "burst", N: 1}, Op{Kind: "get", Count: "4096", Format: "text"},
 			Op{Kind: "burst", N: 1}, Op{Kind: "get", Count: "4097", Format: "json"}, Op{Kind: "get", Count: "1", Format: "json"})
 	}
-	pre.Ops = append(pre.Ops, Op{Kind: "reset"}, Op{Kind: "get", Count: "-", Format: "-"}, Op{Kind: "burst", N: 2}, Op{Kind: "get", Count: "5", Format: "text"})
+	pre.Ops = append(pre.Ops, Op{Kind: "get_during_arrival"}, Op{Kind: "get_during_arrival"}, Op{Kind: "reset"}, Op{Kind: "get", Count: "-", Format: "-"}, Op{Kind: "burst", N: 2}, Op{Kind: "get", Count: "5", Format: "text"})
 	if f := runRecorded("preamble", pre); f != nil {
 		rec.Violation("preamble", pre, f.Msg)
 		t.Fatalf("%s", f.Msg)
